@@ -25,6 +25,7 @@ CONSTANTS Conns,                \* e.g. {"A", "B", "G"}
           MaxSend,              \* bound on what a peer sends
           Dev_ReclaimOnEmpty,   \* deviation: alloc takes slots from the freeable queue when the free list is empty
           Dev_QueueBeforeReset, \* deviation: freeable queues the slot before it has waited for the token and reset it
+          Dev_LateOnHup,        \* deviation: the hang-up queue holds slots; the task reads a slot's OnHup only when it gets to it
           Dev_FreeAtHandlerStart \* deviation: the queue is moved back to the free list when the handler starts a batch, not after it
 
 VARIABLES slot,    \* [1..MaxSlot -> [st, owner (whose fields are set; "" after reset), det (detached counter > 0)]]
@@ -157,7 +158,7 @@ PDo == /\ P.pc = "p_do"
                              \cup (IF o # "" /\ k[o].pending = 0 /\ ~k[o].peerClosed THEN {"spurious_read_event"} ELSE {})
                /\ IF o # "" THEN /\ got' = [got EXCEPT ![o] = @ + k[o].pending] /\ k' = [k EXCEPT ![o].pending = 0]
                             ELSE UNCHANGED <<got, k>>
-               /\ IF e.hup THEN P' = [P EXCEPT !.pc = "p_det", !.hups = Append(@, o)] ELSE P' = [P EXCEPT !.pc = "p_done"]
+               /\ IF e.hup THEN P' = [P EXCEPT !.pc = "p_det", !.hups = Append(@, [o |-> o, s |-> s])] ELSE P' = [P EXCEPT !.pc = "p_done"]
                /\ UNCHANGED <<H, ret, pend>>
        /\ UNCHANGED <<named, supply, u, torn>>
 
@@ -176,7 +177,7 @@ PDone == /\ P.pc = "p_done"
 
 \* ---- hang-up task (hook 41): runs the queued OnHup closures ---------------------------------------
 HRun == /\ H # <<>>
-        /\ LET hs == Head(H) owners == {hs[j] : j \in 1 .. Len(hs)} \ {""} IN
+        /\ LET hs == Head(H) owners == {(IF Dev_LateOnHup THEN slot[hs[j].s].owner ELSE hs[j].o) : j \in 1 .. Len(hs)} \ {""} IN
            /\ torn' = torn \cup owners
            /\ bad' = bad \cup (IF \E o \in owners : ~k[o].peerClosed THEN {"torn_down_by_anothers_event"} ELSE {})
         /\ H' = Tail(H)
